@@ -107,6 +107,9 @@ func c06DocLeaf(doc interface{}, j int) (string, bool) {
 
 // c06CheckDoc: the validated document holds exactly the leaves the reference state machine holds after the change
 func c06CheckDoc(tag string, live *[cfgstore.VLeaves]bool, val *[cfgstore.VLeaves]uint8) {
+	if verifrt.Param("docs") != 1 {
+		return // the document is C05's subject: asserted when the harness runs for C05
+	}
 	verifrt.Assert(c06DocSeen, tag+"plugin-was-consulted")
 	if !c06DocSeen {
 		return
